@@ -15,6 +15,7 @@ import (
 	"sort"
 	"strconv"
 	"strings"
+	"sync"
 	"time"
 
 	"github.com/elastic/go-libaudit/v2/aucoalesce"
@@ -29,6 +30,7 @@ import (
 // ---------- recording encoder with a failure budget ----------
 
 type recEnc struct {
+	mu     sync.Mutex
 	budget int // -1: never fails
 	out    []map[string]any
 }
@@ -36,6 +38,8 @@ type recEnc struct {
 var errInjected = errors.New("injected write failure")
 
 func (e *recEnc) Encode(v any) error {
+	e.mu.Lock()
+	defer e.mu.Unlock()
 	if e.budget == 0 {
 		return errInjected
 	}
